@@ -202,7 +202,8 @@ func (r *readCommand) makeGlobID(path, glob string) string {
 	pathParts := strings.Split(path, "/")
 
 	for i, globPart := range strings.Split(glob, "/") {
-		if strings.Contains(globPart, "*") {
+		// Any glob meta character makes this part differ from file to file.
+		if strings.ContainsAny(globPart, "*?[") {
 			idParts = append(idParts, pathParts[i])
 		}
 	}
